@@ -280,6 +280,13 @@ def gen(r, tier):
             ops.append({"op": "sleep", "d": r.choice([0.5, 5.0, 11.0, 21.0])})
         if observed and r.chance(0.2):
             ops.append({"op": "sleep", "d": 11.0})
+    if not write:
+        # a read-only server: modifying requests that also ask to observe (Observe: 0 takes another way through the
+        # library than plain requests do)
+        for o in ops:
+            if o.get("op") == "req" and o["m"] != GET and o.get("b1szx") is None and o.get("observe") is None and r.chance(0.3):
+                o["observe"] = 0
+                o["rst_after"] = 0
     net = faults.swarm(r, kinds=("drop", "dup", "delay"))
     net["delay_max"] = min(net.get("delay_max", 0.5), 0.5)
     return scn(ops, write=write, tree=tree, net=net)
@@ -447,6 +454,11 @@ def corpus():
                     {"op": "sleep", "d": 11.0}, req(GET, ["f17"], observe=1), req(DELETE, ["big"]),
                     {"op": "sleep", "d": 21.0}, req(PUT, ["f17"], payload=[625, 20]), {"op": "sleep", "d": 11.0}],
         write=True)
+    add("readonly-observe-with-modifying-methods",
+        [req(PUT, ["f17"], payload=[620, 18], observe=0, rst_after=0), req(PUT, ["new-by-put"], payload=[621, 5], observe=0, rst_after=0),
+         req(DELETE, ["f17"], observe=0, rst_after=0), req(DELETE, ["a", "n"], observe=0, rst_after=0), req(POST, ["f17"], payload=[622, 5], observe=0, rst_after=0),
+         req(PUT, ["a", ""], payload=[623, 5], observe=0, rst_after=0), req(PUT, ["f17"], payload=[624, 18], observe=1),
+         req(GET, ["f17"])], write=False)
     add("observe-dir-and-missing", [req(GET, ["a", ""], observe=0), req(GET, ["missing"], observe=0),
                                     req(GET, ["..", "rootfile"], observe=0), req(PUT, ["a", "n"], payload=P),
                                     {"op": "sleep", "d": 21.0}], write=True)
